@@ -20,7 +20,8 @@ func TestMain(m *testing.M) { kit.Main(m, "C09") }
 //
 //	send     the sender writes one DATA frame of N octets (+ padding) on stream S,
 //	         with END_STREAM if End
-//	wu       the receiver grants N octets on stream S (S = -1: the connection)
+//	wu       the receiver grants N octets on stream S (S = -1: the connection); N = -1 on the
+//	         connection: as much as takes the connection window to its maximum 2^31-1
 //	iws      the receiver announces SETTINGS_INITIAL_WINDOW_SIZE = N
 //	maxframe the receiver announces SETTINGS_MAX_FRAME_SIZE = N (never lowered)
 //	ack      the sender processes (and acknowledges) the SETTINGS it has received
@@ -28,6 +29,10 @@ func TestMain(m *testing.M) { kit.Main(m, "C09") }
 //	         fresh identifier; when the server is the DATA sender it answers each the same
 //	         way): the relay sees hundreds of stream identifiers while the measured
 //	         streams stay open
+//	goaway   the receiver announces a graceful shutdown: GOAWAY(NO_ERROR) whose last stream
+//	         identifier covers every stream the peer has opened (a client names the pushed
+//	         streams it has seen - none, 0; a server the highest request stream). The
+//	         streams that are open go on; their DATA must still be delivered.
 //	rst      the receiver resets stream S (RST_STREAM CANCEL). The sender may still have
 //	         DATA for that stream on its way: up to two later sends on S are such late
 //	         frames. They count against the connection window like any DATA, so their
@@ -134,6 +139,8 @@ func (r *ref) blocked() (stream int, byConn bool) {
 
 func (r *ref) apply(op Op) {
 	switch op.K {
+	case "goaway":
+		r.set["receiver-sent-goaway"] = true
 	case "churn":
 		r.set["many-other-streams"] = true
 		for s := range r.sent {
@@ -181,6 +188,10 @@ func (r *ref) apply(op Op) {
 	case "wu":
 		if op.N == 1 {
 			r.set["one-byte-increment"] = true
+		}
+		if op.N < 0 {
+			r.set["connection-window-at-its-maximum"] = true
+			op.N = 1<<31 - 1 - r.conn
 		}
 		if op.S >= 0 && !r.sent[op.S] {
 			r.set["grant-before-first-frame"] = true
@@ -288,7 +299,7 @@ func genCase(t *rapid.T) Case {
 	pending := false
 	model := newRef(c.Streams)
 	closed := make([]bool, c.Streams)
-	churned := false
+	churned, wentAway, filled := false, false, false
 	late := make([]int, c.Streams) // DATA frames the sender may still send on a stream the receiver has reset
 	if c.Lazy && rapid.Bool().Draw(t, "early_grant") {
 		// credit for a stream the server has not answered yet, and room on the connection
@@ -310,8 +321,20 @@ func genCase(t *rapid.T) Case {
 		if !churned && i > 2 && rapid.IntRange(0, 59).Draw(t, "churn") == 0 {
 			k, churned = "churn", true
 		}
+		if !wentAway && rapid.IntRange(0, 39).Draw(t, "goaway") == 0 {
+			k, wentAway = "goaway", true
+		}
+		if !filled && rapid.IntRange(0, 39).Draw(t, "fill") == 0 {
+			// the connection window taken to its maximum early, so that later increments
+			// (each of which only returns what was consumed) add up to more than 2^31
+			filled = true
+			fill := Op{K: "wu", Pad: -1, S: -1, N: -1}
+			model.apply(fill)
+			c.Ops = append(c.Ops, fill)
+		}
 		op := Op{K: k, Pad: -1}
 		switch k {
+		case "goaway":
 		case "churn":
 			op.N = rapid.SampledFrom([]int{260, 300}).Draw(t, "churn_streams")
 		case "rst":
@@ -417,6 +440,12 @@ func genCase(t *rapid.T) Case {
 			op.S = rapid.IntRange(-1, c.Streams-1).Draw(t, "target")
 			if op.S >= 0 && model.reset[op.S] {
 				op.S = -1 // no credit for a stream the receiver has reset
+			}
+			if op.S < 0 && op.N > 1<<31-1-model.conn {
+				op.N = 1<<31 - 1 - model.conn // (the executor clamps again, against what really arrived)
+				if op.N < 1 {
+					op = Op{K: "ack", Pad: -1}
+				}
 			}
 			op.N = rapid.SampledFrom([]int{1, 1, 2, 10, 100, 1000, 16383, 16384, 65535, 1 << 20}).Draw(t, "inc")
 			if held >= 0 && rapid.IntRange(0, 3).Draw(t, "aimed") > 0 {
@@ -650,6 +679,10 @@ func shapeOf(c Case, upto int) string {
 	}
 	l := labels(Case{Reverse: c.Reverse, Lazy: c.Lazy, Streams: c.Streams, Ops: c.Ops[:upto]})
 	switch {
+	case l["receiver-sent-goaway"]:
+		return "after-the-receivers-goaway"
+	case l["connection-window-at-its-maximum"]:
+		return "after-connection-window-at-its-maximum"
 	case l["many-other-streams-while-a-stream-has-window-state"]:
 		return "after-hundreds-of-other-streams"
 	case l["more-than-15-frames-released-at-once"]:
@@ -824,12 +857,31 @@ func runOnce(c Case, bound time.Duration) (kit.Verdict, bool) {
 			x.R.WriteRST(x.ids[op.S], 8)
 			x.reset[op.S] = true
 			x.accepted[op.S] = nil // nothing on this stream has to be delivered any more
+		case "goaway":
+			last := uint32(0) // a client has seen no pushed stream
+			if !c.Reverse {
+				last = x.ids[len(x.ids)-1]
+				if x.nextID > 0 {
+					last = x.nextID - 2
+				}
+			}
+			x.R.WriteGoAway(last, 0, nil)
 		case "wu":
 			id := uint32(0)
 			if op.S >= 0 {
 				id = x.ids[op.S]
 			}
-			x.R.WriteWindowUpdate(id, uint32(op.N))
+			n := int64(op.N)
+			if op.S < 0 {
+				// never beyond 2^31-1 (RFC 7540 6.9.1), judged by what has really arrived
+				conn, _ := x.R.Credit(0)
+				if room := int64(1<<31-1) - conn; n < 0 || n > room {
+					n = room
+				}
+			}
+			if n > 0 {
+				x.R.WriteWindowUpdate(id, uint32(n))
+			}
 		case "iws":
 			// The repeated form only while the relay holds no data of this session: an
 			// intermediate value that lets queued frames go before the last value takes
@@ -861,7 +913,9 @@ func runOnce(c Case, bound time.Duration) (kit.Verdict, bool) {
 
 	// final drain: with ample credit everything accepted must come out
 	x.S.AckSettings()
-	x.R.WriteWindowUpdate(0, 1<<24)
+	if conn, _ := x.R.Credit(0); conn < 1<<24 {
+		x.R.WriteWindowUpdate(0, 1<<24)
+	}
 	for _, id := range x.ids {
 		x.R.WriteWindowUpdate(id, 1<<24)
 	}
